@@ -1,4 +1,5 @@
 import SrProofs.Spring
+import SrProofs.SpringUnique
 
 /-!
 # C04 — the receiver spring system is in equilibrium for every connection option
@@ -15,9 +16,11 @@ The assembly theorem is over an arbitrary commutative ring.
 Not proved here (stated so that nothing is weakened silently):
 * the order in which networkx reports edges/components is not modelled; that the result of
   `reduce_graph` does not depend on it is established by the exact correspondence only;
-* uniqueness of the zero of the residual when `K_ff` is nonsingular (with `assembly_linear` the residual
-  of `RJ` *is* `K d - f`, so its zeros are exactly the solutions of the direct-stiffness equations;
-  the harness compares the real displacements with an independent direct-stiffness solve);
+* the real tubes are nonlinear (1-D FEM) springs: uniqueness of the zero of the residual is proved for
+  linear springs of positive stiffness only (`equilibrium_unique`, `solvable_equilibrium_unique`,
+  `receiver_equilibrium_unique`; with `assembly_linear` the residual of `RJ` *is* `K d - f`, so its unique
+  zero is the direct-stiffness solution); for the real tubes the harness compares the displacements with
+  an independent direct-stiffness solve;
 * Newton convergence (C17) and IEEE rounding.
 -/
 namespace SrProps.C04
@@ -174,6 +177,76 @@ theorem assembly_linear {K : Type} [CommRing K] (l : List (Nat × Nat × K)) (d 
   · intro k ii jj h
     rw [fjDisp_lt d h]; rfl
 
+/-- **equilibrium_energy.** For linear springs `(i, j, k)` with every dof below `n`, the work of the
+assembled internal force of a field `e` on `e` itself is the strain energy (twice):
+`eᵀ K e = Σ k (e_i - e_j)²`. -/
+theorem equilibrium_energy {K : Type} [CommRing K] (l : List (Nat × Nat × K)) (e : Nat → K) (n : Nat)
+    (hn : ∀ s ∈ l, s.1 < n ∧ s.2.1 < n) :
+    (Finset.range n).sum (fun r => e r * assembleF (linEdges l) e r) =
+      (l.map (fun s => s.2.2 * (e s.1 - e s.2.1) ^ 2)).sum :=
+  energy_identity l e n hn
+
+/-- **equilibrium_unique.** Linear springs of positive stiffness over a linearly ordered field, dofs
+below `n`, `B` the dofs with a displacement BC.  If every spring end is joined to a BC dof by a chain of
+springs (`Reach`), two displacement fields that agree on the BC dofs and have the same assembled
+internal force on every free row (both are zeros of the residual `F_int[free] - forces` of `RJ` for the
+same external forces) coincide on every spring end: the zero of the residual is unique, so the
+displacements *are* the direct-stiffness solution. -/
+theorem equilibrium_unique {F : Type} [Field F] [LinearOrder F] [IsStrictOrderedRing F]
+    (l : List (Nat × Nat × F)) (hk : ∀ s ∈ l, 0 < s.2.2) (n : Nat)
+    (hn : ∀ s ∈ l, s.1 < n ∧ s.2.1 < n) (B : Nat → Prop) (d d' : Nat → F)
+    (hB : ∀ r, r < n → B r → d r = d' r)
+    (hbal : ∀ r, r < n → ¬ B r → assembleF (linEdges l) d r = assembleF (linEdges l) d' r)
+    (hreach : ∀ r, IsEnd l r → Reach l B r) :
+    ∀ r, IsEnd l r → d r = d' r := by
+  intro r hr
+  have hlt : r < n := by
+    obtain ⟨s, hs, h | h⟩ := hr
+    · exact h ▸ (hn s hs).1
+    · exact h ▸ (hn s hs).2
+  exact equilibrium_unique_of_reach l hk n hn B d d' hB hbal r hlt (hreach r hr)
+
+/-- **solvable_equilibrium_unique.** Any network that passes `validate_solve` (all edges springs, a BC
+node, connected by the quick-find test) and is well formed (no repeated node, the ends of every edge
+and every BC node are nodes): with a linear spring of positive stiffness `k e` on every edge, two
+displacement fields in the dof numbering of `dof_maps` that take the prescribed values `ubc` at the BC
+nodes and balance the external force `f` at every free node coincide on every node. -/
+theorem solvable_equilibrium_unique {F : Type} [Field F] [LinearOrder F] [IsStrictOrderedRing F]
+    (c : Net) (hv : validateSolve c = .ok ()) (hnd : c.nodes.Nodup)
+    (hends : ∀ e ∈ c.edges, e.i ∈ c.nodes ∧ e.j ∈ c.nodes) (hb : ∀ b ∈ c.bcs, b ∈ c.nodes)
+    (k : Edge → F) (hk : ∀ e ∈ c.edges, 0 < k e) (ubc f : Nat → F) (d d' : Nat → F)
+    (hd : ∀ b ∈ c.bcs, d ((dofMaps c).1 b) = ubc b) (hd' : ∀ b ∈ c.bcs, d' ((dofMaps c).1 b) = ubc b)
+    (hf : ∀ m ∈ (dofMaps c).2.1, assembleF (linEdges (netSprings c k)) d ((dofMaps c).1 m) = f m)
+    (hf' : ∀ m ∈ (dofMaps c).2.1, assembleF (linEdges (netSprings c k)) d' ((dofMaps c).1 m) = f m) :
+    ∀ m ∈ c.nodes, d ((dofMaps c).1 m) = d' ((dofMaps c).1 m) := by
+  have hfree : ∀ m ∈ c.nodes, m ∉ c.bcs → m ∈ (dofMaps c).2.1 := by
+    intro m hm hnb
+    show m ∈ c.nodes.filter (fun n => !c.bcs.contains n)
+    rw [List.mem_filter]
+    exact ⟨hm, by simpa using hnb⟩
+  exact net_equilibrium_unique hv hnd hends hb k hk ubc f d d' hd hd'
+    (fun m hm hnb => hf m (hfree m hm hnb)) (fun m hm hnb => hf' m (hfree m hm hnb))
+
+/-- **receiver_equilibrium_unique.** For every receiver option, every list of panels, every component
+returned by `reduce_graph` and every assignment of positive stiffnesses to its edges (connection springs
+and tubes as linear springs): two displacement fields that satisfy the displacement BCs and balance every
+free node with the same external forces coincide on the whole component.  (`(dofMaps c).1` is `dmap`,
+`(dofMaps c).2.1` the free nodes; `netSprings c k` lists the edges of `c` as `(dof i, dof j, k e)`.) -/
+theorem receiver_equilibrium_unique {F : Type} [Field F] [LinearOrder F] [IsStrictOrderedRing F]
+    (r : Opt) (ps : List (Opt × Nat)) (comps : List Net)
+    (h : reduce (buildNetwork r ps) = .ok comps) (c : Net) (hc : c ∈ comps)
+    (k : Edge → F) (hk : ∀ e ∈ c.edges, 0 < k e) (ubc f : Nat → F) (d d' : Nat → F)
+    (hd : ∀ b ∈ c.bcs, d ((dofMaps c).1 b) = ubc b) (hd' : ∀ b ∈ c.bcs, d' ((dofMaps c).1 b) = ubc b)
+    (hf : ∀ m ∈ (dofMaps c).2.1, assembleF (linEdges (netSprings c k)) d ((dofMaps c).1 m) = f m)
+    (hf' : ∀ m ∈ (dofMaps c).2.1, assembleF (linEdges (netSprings c k)) d' ((dofMaps c).1 m) = f m) :
+    ∀ m ∈ c.nodes, d ((dofMaps c).1 m) = d' ((dofMaps c).1 m) := by
+  have hT := buildNetwork_treeNet r ps
+  rw [hT.reduce_eq] at h
+  cases h
+  obtain ⟨r', hr, hl, hcl, rfl, hkeep⟩ := mem_components.1 hc
+  exact solvable_equilibrium_unique _ (hT.comp_valid hr hl hcl hkeep) (hT.comp_nodes_nodup r')
+    (fun e he => hT.comp_ends he) (fun b hb => hT.comp_bcs_nodes hb) k hk ubc f d d' hd hd' hf hf'
+
 /-! ### non-vacuity -/
 
 /-- receiver spring, one disconnected panel (1 tube), one rigid panel (2 tubes): the disconnected
@@ -207,6 +280,40 @@ example : reduce ⟨[0, 1], [⟨0, 1, .conn .rigid⟩], [1]⟩ = .error .deletin
 example : (List.range 3).map (fun r => (List.range 3).map (fun c =>
     assembleJ (linEdges [(0, 1, (2 : Int)), (2, 1, 3)]) (fun _ => 0) r c)) =
     [[2, -2, 0], [-2, 5, -3], [0, -3, 3]] := by decide
+
+/-- two springs in series (`k = 2` between dofs 0–1, `k = 3` between dofs 1–2), dof 0 pinned at 0, no
+load on dof 1 and a load of 6 on dof 2: the only equilibrium is `d = (0, 3, 5)` -/
+example (d' : Nat → ℚ) (h0 : d' 0 = 0)
+    (h1 : assembleF (linEdges [(0, 1, (2 : ℚ)), (1, 2, 3)]) d' 1 = 0)
+    (h2 : assembleF (linEdges [(0, 1, (2 : ℚ)), (1, 2, 3)]) d' 2 = 6) :
+    d' 1 = 3 ∧ d' 2 = 5 := by
+  have hm1 : ((0, 1, (2 : ℚ)) : Nat × Nat × ℚ) ∈ [(0, 1, (2 : ℚ)), (1, 2, 3)] := by simp
+  have hm2 : ((1, 2, (3 : ℚ)) : Nat × Nat × ℚ) ∈ [(0, 1, (2 : ℚ)), (1, 2, 3)] := by simp
+  have hr0 : Reach [(0, 1, (2 : ℚ)), (1, 2, 3)] (fun r => r = 0) 0 := Reach.base rfl
+  have hr1 := Reach.step hm1 hr0
+  have hr2 := Reach.step hm2 hr1
+  have key := equilibrium_unique [(0, 1, (2 : ℚ)), (1, 2, 3)] (by simp) 3 (by simp)
+    (fun r => r = 0) (fun i => if i = 0 then 0 else if i = 1 then 3 else 5) d'
+    (by intro r _ hr; subst hr; simp [h0])
+    (by
+      intro r hr hne
+      have : r = 1 ∨ r = 2 := by omega
+      rcases this with rfl | rfl
+      · rw [h1, assembleF_linear]; norm_num [delta]
+      · rw [h2, assembleF_linear]; norm_num [delta])
+    (by
+      rintro r ⟨s, hs, h⟩
+      simp only [List.mem_cons, List.not_mem_nil, or_false] at hs
+      rcases hs with rfl | rfl <;> rcases h with rfl | rfl <;> assumption)
+  have k1 := key 1 ⟨_, hm1, Or.inr rfl⟩
+  have k2 := key 2 ⟨_, hm2, Or.inr rfl⟩
+  simp at k1 k2
+  exact ⟨k1.symm, k2.symm⟩
+
+/-- the springs of the big component of the first example above in dof numbering -/
+example : netSprings ⟨[0, 1, 4, 6, 8], [⟨0, 1, .conn (.stiff 100)⟩, ⟨0, 4, .conn (.stiff 100)⟩,
+      ⟨4, 6, .tube 1⟩, ⟨4, 8, .tube 2⟩], [6, 8]⟩ (fun _ => (1 : Int)) =
+    [(0, 1, 1), (0, 2, 1), (2, 3, 1), (2, 4, 1)] := by decide
 
 /-- **F16 (pinned commit).** With the final filter of `split_disconnect` as coded at the pinned
 commit the floating group of connection springs is returned … -/
